@@ -1028,6 +1028,8 @@ def run(ctx):
         # the `if` statement(s) that guard the substitution may read the argument
         guards = [i_ for i_ in walk_no_nested(sp.node) if isinstance(i_, ast.If) and any(a_ is x_ for x_ in ast.walk(i_))]
         allowed = {id(x_) for g_ in guards for x_ in ast.walk(g_.test)}
+        allowed |= {id(x_) for c_ in walk_no_nested(sp.node) if isinstance(c_, ast.Call) and isinstance(c_.func, ast.Attribute) and isinstance(c_.func.value, ast.Name)
+                    and c_.func.value.id in ("logger", "logging", "warnings") for x_ in ast.walk(c_)}  # a log line derives nothing
         early = [x_ for x_ in walk_no_nested(sp.node) if isinstance(x_, ast.Name) and x_.id == pname and isinstance(x_.ctx, ast.Load) and x_.lineno < a_.lineno and id(x_) not in allowed]
         ctx.decide(not early, "C11.prime", sp.ident, loc_of(sp, early[0] if early else a_), f"`{pname}` is not read before the primed value may replace it",
                    f"`{pname}` is read at line {early[0].lineno if early else '?'}, before line {a_.lineno} replaces it by the value primed by resume_from_file: what is derived there (a default that "
